@@ -309,8 +309,9 @@ def run_case(case, ctx):
             if parts and not C.img_equal(C.image(np.concatenate(parts)), C.image(got)):
                 ctx.violation('chunked-scaling-differs', info)
             # scaled values must not depend on what was looked up before: integer lookups, then windows and slices again
-            for i in sorted({0, N_ // 2, N_ - 1}) if N_ else []:
+            for i in (sorted({0, N_ // 2, N_ - 1}) + [-1, -2 if N_ >= 2 else -1, -N_]) if N_ else []:
                 v = lch[i]
+                i = i % N_
                 ctx.count('scaled_index_then_window')
                 if not C.img_equal(C.image(np.asarray([v])), C.image(got[i:i + 1])):
                     ctx.violation('scaled-index-differs/%s' % kinds, dict(info, index=i, got=repr(v), want=repr(got[i])))
